@@ -105,6 +105,12 @@ fn run_reject(cfg: &Cfg, index: u64, stats: &mut Stats) {
         if index < 3 && t == 0 {
             stats.sample(json!({"must_reject": {"injected": kind, "site": target, "verdict": analyzed.verdict.brief().lines().next()}}));
         }
+        // typed term holes are accepted by design (the checker reports their types): not an error kind here; what
+        // must never happen to such a program is execution (C01)
+        if kind == "term-hole" && analyzed.verdict.is_accept() {
+            stats.count("term_hole_programs_accepted_by_design");
+            continue;
+        }
         if !analyzed.verdict.is_reject() {
             let signature = match &analyzed.verdict {
                 | Verdict::Panic(p) => format!("checker-panic {}", p.site()),
